@@ -1478,13 +1478,13 @@ func F10(rc *RC) {
 		return
 	}
 	pos := rc.P.Pos(fi.Decl.Pos())
-	c := ir.NewCanon(rc.P.Fset, fi.Pkg.TypesInfo, ir.Options{ParamNames: true, KeepNames: true, NoSubst: true})
+	c := ir.NewCanon(rc.P.Fset, fi.Pkg.TypesInfo, ir.Options{KeepNames: true, NoSubst: true})
 	txt := ir.Render(c.Func(fi.Decl))
 	var bad []string
-	if !strings.Contains(txt, "$r.shape = $shape") {
+	if !strings.Contains(txt, "$r.shape = $0") {
 		bad = append(bad, "the shape argument is not stored")
 	}
-	if !strings.Contains(txt, "$r.strides = $strides") {
+	if !strings.Contains(txt, "$r.strides = $1") {
 		bad = append(bad, "the strides argument is not stored: strides derived here are derived for the data order the receiver had before the decoder set the decoded one")
 	}
 	if strings.Contains(txt, "alcStrides") {
@@ -1752,7 +1752,7 @@ func WP(rc *RC) {
 		if recv != "" {
 			t = ir.ReplaceWord(t, recv, "$r")
 		}
-		return t, rc.P.Pos(fi.Decl.Pos()), true
+		return alphaNormKeepRecv(t), rc.P.Pos(fi.Decl.Pos()), true
 	}
 	a, pos, ok1 := text("tensor.Narrow", "$t")
 	b, _, ok2 := text("tensor.(*Dense).Narrow", "")
@@ -1840,7 +1840,7 @@ func VH(rc *RC) {
 			if loc := call.FindStringIndex(txt); loc != nil {
 				if args, _ := callArgsAt(txt, loc[1]); len(args) > 0 {
 					seen[args[0]] = true
-					if !e.allowed[args[0]] {
+					if !e.allowed[args[0]] && (strings.Contains(args[0], "$") || strings.Contains(args[0], "(")) {
 						bad = append(bad, fmt.Sprintf("Concat is called with axis %s", args[0]))
 					}
 				}
@@ -1851,7 +1851,14 @@ func VH(rc *RC) {
 			rc.S.Viol("VH", e.key, pos, strings.Join(uniq(bad), "; ")+": the stacking axis is a constant of the operation, whatever the rank of the operands").Sig = "axis term"
 		case len(seen) == 0:
 			rc.S.Ok("VH", e.key, pos, "no direct Concat call (another form): not judged")
-		case !seen[e.must]:
+		case !seen[e.must] && func() bool {
+			for a := range seen {
+				if !e.allowed[a] {
+					return false // a named constant: not judged
+				}
+			}
+			return true
+		}():
 			rc.S.Viol("VH", e.key, pos, "no Concat call along axis "+e.must).Sig = "axis missing"
 		default:
 			rc.S.Ok("VH", e.key, pos, "Concat along the operation's own axis")
